@@ -3,8 +3,15 @@
 //!
 //! Differential monitor: the same query is evaluated on the store "as found" (after a script of
 //! cache faults interleaved with appends and restarts) and on a copy from which every cache file
-//! has been removed (pure truth path); answers must be equal. Replay and cut points are also
-//! checked against an independent reading of the raw log. Termination is decided on logical
+//! has been removed; answers must be equal. With the caches removed the real code rebuilds them and
+//! takes the same fast paths again, so that answer is not independent: replay, cut points (incl.
+//! their "already checkpointed" marking), the status' latest checkpoint, cursor / selection status
+//! and the checkpoint selection of compile (cut, eligible checkpoints with "latest frame per to_seq
+//! wins", halving hierarchy, strategy) are also checked against an independent reading of the raw
+//! log. Histories hold REPEATED and OUT-OF-ORDER checkpoints (gen_hist re-checkpoints; directed
+//! `RepeatedCkpts` shapes, compared with no fault and with one fault), and compile is anchored at
+//! the repeatedly checkpointed messages. A disagreement is blamed on a fault class only after a
+//! re-run of the same history without faults did not show it. Termination is decided on logical
 //! steps: `cache.scan` ticks per query are counted by the step-budget handler.
 
 use crate::fixture::{copy_dir, App, Store};
@@ -14,8 +21,9 @@ use crate::report::{Cfg, Report};
 use crate::sched::{sched, with_step_budget};
 use crate::truth;
 use ripd::{
-    CompactionCutPointsV1Request, CompactionStatusV1Request, ContextSelectionStatusV1Request,
-    ContinuityRunLink, ProviderCursorRotateV1Request, ProviderCursorStatusV1Request,
+    CompactionAutoV1Request, CompactionCheckpointCumulativeV1Request, CompactionCutPointsV1Request,
+    CompactionStatusV1Request, ContextSelectionStatusV1Request, ContinuityRunLink, ProviderCursorRotateV1Request,
+    ProviderCursorStatusV1Request,
 };
 use serde_json::{json, Value};
 use std::path::Path;
@@ -113,6 +121,10 @@ pub enum Shape {
     BigSidecar(u64),       // > 8 MiB of large messages
     Spread(u64),           // decisions / cursors / checkpoints spread over > 256 KiB of side effects
     Long(u64),             // several hundred frames per phase: seek-index strides (256) are crossed after a fault
+    /// a handful of messages whose cut points are summarised REPEATEDLY and OUT OF ORDER (corrected summaries for a
+    /// cut point that has one already: adjacent frames, frames far apart, decreasing to_seq order, mixed with
+    /// auto-compaction); the number picks the ordering class
+    RepeatedCkpts(u64),
 }
 
 #[derive(Clone, Debug)]
@@ -151,7 +163,22 @@ pub fn apply_fault(store: &Store, thread: &str, other: &str, saved: &Path, f: &F
         FaultKind::TruncZero => cur.is_some() && std::fs::write(&path, b"").is_ok(),
         FaultKind::TruncByte => match cur {
             Some(b) if !b.is_empty() => {
-                let n = rng.usize(b.len());
+                let mut n = rng.usize(b.len());
+                let n0 = n;
+                // this kind stands for a TORN file (class "damaged"). A cut that leaves nothing but whole lines is a
+                // well-formed older version instead - the class of TruncLine / DropLastLine / TruncZero ("stale"), which
+                // cover it - so such a cut is moved back into the line before it
+                if FILES[f.file].ends_with(".jsonl") {
+                    while n > 0 && (b[n - 1] == b'\n' || b[n] == b'\n') {
+                        n -= 1;
+                    }
+                    if n == 0 && b.len() > 2 && b[1] != b'\n' {
+                        n = 1;
+                    }
+                }
+                if n != n0 && std::env::var("RV_C04_DEBUG").is_ok() {
+                    eprintln!("trunc_byte on {}: cut at byte {n0} of {} leaves only whole lines, moved to {n}", FILE_CLASS[f.file], b.len());
+                }
                 std::fs::write(&path, &b[..n]).is_ok()
             }
             _ => false,
@@ -216,6 +243,11 @@ pub struct QueryDef {
 }
 
 pub fn queries(msgs: &[(u64, String)], head: u64, big: bool) -> Vec<QueryDef> {
+    queries_with_anchors(msgs, head, big, &[])
+}
+
+/// `extra`: further compile anchors (tag, index into `msgs`) chosen from what the history contains.
+pub fn queries_with_anchors(msgs: &[(u64, String)], head: u64, big: bool, extra: &[(String, usize)]) -> Vec<QueryDef> {
     let mut q = Vec::new();
     let mk = |name: String, class: &'static str, args: Value| QueryDef { name, class, args };
     q.push(mk("replay".into(), "replay", json!({})));
@@ -251,6 +283,13 @@ pub fn queries(msgs: &[(u64, String)], head: u64, big: bool) -> Vec<QueryDef> {
             }
             seen_idx.push(i);
             q.push(mk(format!("compile(anchor={tag})"), "compile", json!({"message_id": msgs[i].1})));
+        }
+        for (tag, i) in extra {
+            if *i >= msgs.len() || seen_idx.contains(i) {
+                continue;
+            }
+            seen_idx.push(*i);
+            q.push(mk(format!("compile(anchor={tag})"), "compile", json!({"message_id": msgs[*i].1})));
         }
         q.push(mk("branch(from_message=mid)".into(), "branch", json!({"from_message_id": msgs[msgs.len() / 2].1})));
         q.push(mk("handoff(from_message=mid)".into(), "handoff", json!({"from_message_id": msgs[msgs.len() / 2].1})));
@@ -387,6 +426,57 @@ pub fn run_query(store: &Store, thread: &str, q: &QueryDef) -> Value {
     }
 }
 
+/// What the truth log determines for the checkpoint selection of a compile anchored at `msgs[ai]`: the cut point
+/// (last frame before the next message, or the head), the eligible cumulative checkpoints (`to_seq` <= cut; of
+/// several frames for one `to_seq` the one latest in the stream counts), the newest of them, then repeatedly the
+/// greatest `to_seq` at or below half of the previous one, at most `max_refs` in all; listed by ascending `to_seq`.
+/// `ckpt_frames`: (to_seq, frame seq, {checkpoint_id, summary_kind, summary_artifact_id, to_seq}) in stream order.
+fn compile_selection_model(msgs: &[(u64, String)], head: u64, ai: usize, ckpt_frames: &[(u64, u64, Value)], max_refs: usize) -> Value {
+    let from_seq = match msgs.get(ai + 1) {
+        Some(next) => next.0.saturating_sub(1),
+        None => head,
+    }
+    .max(msgs[ai].0);
+    let mut by_to: std::collections::BTreeMap<u64, (u64, &Value)> = Default::default();
+    for (to, fseq, rec) in ckpt_frames {
+        if *to > from_seq || rec["summary_kind"] != "cumulative_v1" {
+            continue;
+        }
+        match by_to.get(to) {
+            Some((s, _)) if *s >= *fseq => {}
+            _ => {
+                by_to.insert(*to, (*fseq, rec));
+            }
+        }
+    }
+    let mut selected: Vec<(u64, Value)> = Vec::new();
+    if let Some((to, (_, rec))) = by_to.iter().next_back() {
+        let mut cur = *to;
+        selected.push((cur, (*rec).clone()));
+        while selected.len() < max_refs && cur > 1 {
+            match by_to.range(..=cur / 2).next_back() {
+                Some((to, (_, rec))) if *to < cur => {
+                    cur = *to;
+                    selected.push((cur, (*rec).clone()));
+                }
+                _ => break,
+            }
+        }
+    }
+    selected.sort_by_key(|x| x.0);
+    let strategy = match selected.len() {
+        0 => "recent_messages_v1",
+        1 => "summaries_recent_messages_v1",
+        _ => "hierarchical_summaries_recent_messages_v1",
+    };
+    json!({
+        "from_seq": from_seq,
+        "compiler_strategy": strategy,
+        "compaction_checkpoints": selected.iter().map(|x| x.1.clone()).collect::<Vec<_>>(),
+        "compaction_checkpoint": selected.last().map(|x| x.1.clone()),
+    })
+}
+
 pub struct Outcome {
     pub mismatches: Vec<(String, String, String)>, // (query class, query name, detail)
     pub nonterm: Vec<(String, String, u64)>,
@@ -396,9 +486,151 @@ pub struct Outcome {
     pub queries: usize,
     pub max_steps: u64,
     pub model_mismatch: Vec<(String, String)>,
+    /// what the history holds and what the compile queries reached (measured, for the evidence)
+    pub ckpt_frames: usize,
+    pub ckpt_frames_out_of_order: usize, // checkpoint frames whose to_seq is below the to_seq of the checkpoint frame before
+    pub rep_cuts: usize,                 // cut points (to_seq) carrying two or more checkpoint frames
+    pub rep_selected: usize,             // compile answers (no-cache path) that selected a repeated cut point
+    pub rep_selected_hier: usize,        // ... under the hierarchical strategy
+    pub rep_selected_not_newest: usize,  // ... at a level other than the newest selected checkpoint
 }
 
 const STEP_BUDGET: u64 = 160;
+
+/// One manual cumulative checkpoint for `msg_id` with a summary text of its own.
+fn post_ckpt(app: &App, thread: &str, known: &mut Known, msg_id: &str, tag: &str) {
+    known.counter += 1;
+    let req = CompactionCheckpointCumulativeV1Request {
+        summary_markdown: Some(format!("summary {tag}#{} (attempt for {msg_id})", known.counter)),
+        summary_artifact_id: None,
+        to_message_id: Some(msg_id.to_string()),
+        to_seq: None,
+        stride_messages: None,
+        actor_id: format!("actor-{tag}"),
+        origin: "rv".into(),
+    };
+    if let Ok((_, _, _, mid, _)) = app.store().compaction_checkpoint_cumulative_v1(thread, req) {
+        known.ckpt_msgs.push((thread.to_string(), mid));
+    }
+}
+
+fn auto_compact(app: &App, thread: &str, stride: u64, max_new: u32, tag: &str) {
+    let _ = app.store().compaction_auto_v1(
+        thread,
+        CompactionAutoV1Request {
+            stride_messages: Some(stride),
+            max_new_checkpoints: Some(max_new),
+            dry_run: Some(false),
+            actor_id: format!("actor-{tag}"),
+            origin: "rv".into(),
+        },
+    );
+}
+
+/// Posting script of a `RepeatedCkpts` history: message ids in posting order (a message appears once per
+/// summary it gets); `split` = how many are posted in phase 1 (the rest in phase 2, i.e. after the cache copy
+/// that "rollback" faults restore).
+struct RepScript {
+    posts: Vec<String>,
+    split: usize,
+    auto_last: bool,
+}
+
+/// Phase 1 of a `RepeatedCkpts` history: 6..10 messages (frame density between them by `variant`), then the
+/// first part of the checkpoint posts.
+fn build_rep_phase1(app: &App, store: &Store, conts: &[String], known: &mut Known, rng: &mut Rng, variant: u64) -> RepScript {
+    let thread = conts[0].clone();
+    let n = 6 + rng.usize(5);
+    for _ in 0..n {
+        let _ = exec(app, &store.data, conts, known, OpKind::Msg, rng, "p1");
+        match variant % 3 {
+            0 => {}
+            1 => {
+                for _ in 0..rng.usize(3) {
+                    let _ = exec(app, &store.data, conts, known, OpKind::SideEffects, rng, "p1");
+                }
+            }
+            _ => {
+                let _ = exec(app, &store.data, conts, known, OpKind::RunSpawned, rng, "p1");
+                if rng.bool() {
+                    let _ = exec(app, &store.data, conts, known, OpKind::SideEffects, rng, "p1");
+                }
+                let _ = exec(app, &store.data, conts, known, OpKind::RunEnded, rng, "p1");
+            }
+        }
+    }
+    let mine: Vec<String> = known.msgs.iter().filter(|(c, _)| *c == thread).map(|m| m.1.clone()).collect();
+    let m = mine.len(); // >= 7 (the p0 message + n)
+    // (message index, number of summaries): an early cut point with 2-3, a middle one with 2, late ones with 1-2
+    let mut targets: Vec<(usize, usize)> = vec![
+        (rng.usize(2), 2 + rng.usize(2)),
+        (m / 2, 2),
+        (m - 2, 1 + rng.usize(2)),
+        (m - 1, 1 + (variant % 2) as usize),
+    ];
+    let extra = 2 + rng.usize(m - 4);
+    if !targets.iter().any(|t| t.0 == extra) {
+        targets.push((extra, 1));
+    }
+    targets.sort();
+    let mut posts: Vec<usize> = Vec::new();
+    match variant % 4 {
+        // increasing cut points, the summaries of one cut point adjacent in the stream
+        0 => {
+            for (i, c) in &targets {
+                for _ in 0..*c {
+                    posts.push(*i);
+                }
+            }
+        }
+        // rounds: first summaries in increasing order, the corrections in DECREASING order, third ones increasing:
+        // equal-to_seq frames far apart, and to_seq going down along the stream
+        1 => {
+            for round in 0..3usize {
+                let mut l: Vec<usize> = targets.iter().filter(|t| t.1 > round).map(|t| t.0).collect();
+                if round % 2 == 1 {
+                    l.reverse();
+                }
+                posts.extend(l);
+            }
+        }
+        // any order
+        2 => {
+            for (i, c) in &targets {
+                for _ in 0..*c {
+                    posts.push(*i);
+                }
+            }
+            rng.shuffle(&mut posts);
+        }
+        // decreasing cut points (newest first), the summaries of one cut point adjacent
+        _ => {
+            for (i, c) in targets.iter().rev() {
+                for _ in 0..*c {
+                    posts.push(*i);
+                }
+            }
+        }
+    }
+    if (variant / 4) % 2 == 1 {
+        // auto-compaction first: the manual posts then re-summarise some cut points the job has done already
+        auto_compact(app, &thread, 2, 3, "p1");
+    }
+    let split = 1 + rng.usize(posts.len() - 1);
+    let script = RepScript { posts: posts.into_iter().map(|i| mine[i].clone()).collect(), split, auto_last: rng.bool() };
+    run_rep_posts(app, store, conts, known, rng, &script.posts[..script.split], "p1");
+    script
+}
+
+fn run_rep_posts(app: &App, store: &Store, conts: &[String], known: &mut Known, rng: &mut Rng, posts: &[String], tag: &str) {
+    for id in posts {
+        post_ckpt(app, &conts[0], known, id, tag);
+        if rng.chance(1, 4) {
+            let k = [OpKind::Msg, OpKind::Compile, OpKind::SideEffects, OpKind::Cursor][rng.usize(4)];
+            let _ = exec(app, &store.data, conts, known, k, rng, tag);
+        }
+    }
+}
 
 /// `n` frames quickly: messages with one or two side-effect frames each, every 40th message a rich op.
 fn build_bulk(app: &App, store: &Store, conts: &[String], known: &mut Known, rng: &mut Rng, n: usize, tag: &str) {
@@ -449,6 +681,11 @@ fn build_ops(app: &App, store: &Store, conts: &[String], known: &mut Known, rng:
 }
 
 pub fn execute(plan: &Plan, only_faults: Option<&[usize]>) -> Outcome {
+    execute_opts(plan, only_faults, None)
+}
+
+/// `only_names`: evaluate only the queries with these names (used when a finding is re-run for attribution).
+pub fn execute_opts(plan: &Plan, only_faults: Option<&[usize]>, only_names: Option<&[String]>) -> Outcome {
     let mut rng = Rng::new(plan.seed);
     let store = Store::new("c04");
     let saved = store.dir.join("saved-caches");
@@ -461,6 +698,12 @@ pub fn execute(plan: &Plan, only_faults: Option<&[usize]>) -> Outcome {
         queries: 0,
         max_steps: 0,
         model_mismatch: vec![],
+        ckpt_frames: 0,
+        ckpt_frames_out_of_order: 0,
+        rep_cuts: 0,
+        rep_selected: 0,
+        rep_selected_hier: 0,
+        rep_selected_not_newest: 0,
     };
     let faults: Vec<&Fault> = plan
         .faults
@@ -485,8 +728,12 @@ pub fn execute(plan: &Plan, only_faults: Option<&[usize]>) -> Outcome {
         build_ops(&app, &store, &[other.clone()], &mut known_o, &mut rng, 12, "o");
     }
     let conts = vec![thread.clone()];
+    let mut rep_script: Option<RepScript> = None;
     // phase 1
     match plan.shape {
+        Shape::RepeatedCkpts(v) => {
+            rep_script = Some(build_rep_phase1(&app, &store, &conts, &mut known, &mut rng, v));
+        }
         Shape::ManyMessages(n) => {
             let st = app.store();
             // a cursor and a decision early (far beyond every tail window later)
@@ -568,7 +815,15 @@ pub fn execute(plan: &Plan, only_faults: Option<&[usize]>) -> Outcome {
     }
     copy_dir(&store.streams_dir(), &saved);
     // phase 2
-    if matches!(plan.shape, Shape::Long(_)) {
+    if let Some(script) = &rep_script {
+        run_rep_posts(&app, &store, &conts, &mut known, &mut rng, &script.posts[script.split..], "p2");
+        if script.auto_last {
+            auto_compact(&app, &thread, 1 + rng.below(3), 2, "p2");
+        }
+        for _ in 0..rng.usize(3) {
+            let _ = exec(&app, &store.data, &conts, &mut known, OpKind::Msg, &mut rng, "p2");
+        }
+    } else if matches!(plan.shape, Shape::Long(_)) {
         build_bulk(&app, &store, &conts, &mut known, &mut rng, plan.n[1], "p2");
     } else {
         build_ops(&app, &store, &conts, &mut known, &mut rng, plan.n[1], "p2");
@@ -583,7 +838,13 @@ pub fn execute(plan: &Plan, only_faults: Option<&[usize]>) -> Outcome {
         app = App::open(&store, None).expect("reopen");
     }
     // phase 3: further appends on top of the faulted caches
-    if matches!(plan.shape, Shape::Long(_)) {
+    if rep_script.is_some() {
+        let w = weights();
+        for _ in 0..plan.n[2] {
+            let k = pick_kind(&mut rng, &w);
+            let _ = exec(&app, &store.data, &conts, &mut known, k, &mut rng, "p3");
+        }
+    } else if matches!(plan.shape, Shape::Long(_)) {
         build_bulk(&app, &store, &conts, &mut known, &mut rng, plan.n[2], "p3");
         build_ops(&app, &store, &conts, &mut known, &mut rng, 5, "p3");
     } else {
@@ -621,8 +882,71 @@ pub fn execute(plan: &Plan, only_faults: Option<&[usize]>) -> Outcome {
     }
     let msgs = truth::messages(&tframes);
     let head = tframes.last().map(|f| f.seq()).unwrap_or(0);
-    let big = !matches!(plan.shape, Shape::Small | Shape::Medium);
-    let qs = queries(&msgs, head, big);
+    let big = !matches!(plan.shape, Shape::Small | Shape::Medium | Shape::RepeatedCkpts(_));
+    // checkpoint frames of the thread in stream order: (to_seq, checkpoint id, frame seq)
+    let ckpts: Vec<(u64, String, u64)> = tframes
+        .iter()
+        .filter(|f| f.ty() == "continuity_compaction_checkpoint_created")
+        .map(|f| (f.u("to_seq").unwrap_or(u64::MAX), f.s("checkpoint_id").to_string(), f.seq()))
+        .collect();
+    let ckpt_recs: Vec<(u64, u64, Value)> = tframes
+        .iter()
+        .filter(|f| f.ty() == "continuity_compaction_checkpoint_created")
+        .map(|f| {
+            let to = f.u("to_seq").unwrap_or(u64::MAX);
+            (
+                to,
+                f.seq(),
+                json!({"checkpoint_id": f.s("checkpoint_id"), "summary_kind": f.s("summary_kind"),
+                       "summary_artifact_id": f.s("summary_artifact_id"), "to_seq": to}),
+            )
+        })
+        .collect();
+    let mut per_cut: std::collections::BTreeMap<u64, u32> = Default::default();
+    for c in &ckpts {
+        *per_cut.entry(c.0).or_insert(0) += 1;
+    }
+    let rep_cuts: Vec<u64> = per_cut.iter().filter(|(_, n)| **n >= 2).map(|(s, _)| *s).collect();
+    out.ckpt_frames = ckpts.len();
+    out.ckpt_frames_out_of_order = ckpts.windows(2).filter(|w| w[1].0 < w[0].0).count();
+    out.rep_cuts = rep_cuts.len();
+    // compile anchors chosen from what the history holds: messages whose cut point carries several checkpoints
+    // (the newest such; in the directed histories the two newest and the oldest; there the repeated cut point is the
+    // newest eligible one), and for
+    // the lowest repeated cut point the first checkpointed message at twice its seq or more (there it is a
+    // candidate for the deeper levels of the halving rule)
+    let mut extra: Vec<(String, usize)> = Vec::new();
+    let idx_of = |seq: u64| msgs.iter().position(|m| m.0 == seq);
+    let mut picked: Vec<u64> = Vec::new();
+    let per_end = if matches!(plan.shape, Shape::RepeatedCkpts(_)) { 2 } else { 1 };
+    for s in rep_cuts.iter().rev().take(per_end).chain(rep_cuts.iter().take(per_end - 1)) {
+        if !picked.contains(s) {
+            picked.push(*s);
+        }
+    }
+    for (k, s) in picked.iter().enumerate() {
+        if let Some(i) = idx_of(*s) {
+            extra.push((format!("repeated_cut{k}"), i));
+        }
+    }
+    if let Some(d) = rep_cuts.first() {
+        if let Some(i) = per_cut.keys().find(|l| **l >= d.saturating_mul(2) && **l > *d).and_then(|l| idx_of(*l)) {
+            extra.push(("twice_repeated_cut".to_string(), i));
+        }
+    }
+    let mut qs = queries_with_anchors(&msgs, head, big, &extra);
+    if matches!(plan.shape, Shape::RepeatedCkpts(_)) {
+        // the queries that read checkpoints (the others are covered on the seeded histories, which hold repeated
+        // checkpoints too); of the cut-point listings the long ones
+        qs.retain(|q| match q.class {
+            "replay" | "status" | "compile" => true,
+            "cut_points" => q.args["limit"].as_u64() == Some(32) || q.args["stride"].as_u64() == Some(1),
+            _ => false,
+        });
+    }
+    if let Some(names) = only_names {
+        qs.retain(|q| names.contains(&q.name));
+    }
 
     // reference store: all caches removed
     let reference = store.fork_sharing_ws("c04ref");
@@ -670,6 +994,23 @@ pub fn execute(plan: &Plan, only_faults: Option<&[usize]>) -> Outcome {
         }
         if a != b {
             out.mismatches.push((q.class.to_string(), q.name.clone(), diff_summary(&a, &b)));
+        }
+        if std::env::var("RV_C04_DEBUG").is_ok() && q.class == "compile" {
+            eprintln!("{} as-found ckpts={} ref={} rep_cuts={:?}", q.name, a["ok"]["compaction_checkpoints"], b["ok"]["compaction_checkpoints"], rep_cuts);
+        }
+        if q.class == "compile" && !rep_cuts.is_empty() {
+            if let Some(sel) = b["ok"]["compaction_checkpoints"].as_array() {
+                let tos: Vec<u64> = sel.iter().map(|c| c["to_seq"].as_u64().unwrap_or(u64::MAX)).collect();
+                if tos.iter().any(|t| rep_cuts.contains(t)) {
+                    out.rep_selected += 1;
+                    if tos.len() >= 2 {
+                        out.rep_selected_hier += 1;
+                    }
+                    if tos.iter().rev().skip(1).any(|t| rep_cuts.contains(t)) {
+                        out.rep_selected_not_newest += 1;
+                    }
+                }
+            }
         }
         // independent model for replay and cut points (on the reference answer)
         if q.class == "replay" {
@@ -738,20 +1079,54 @@ pub fn execute(plan: &Plan, only_faults: Option<&[usize]>) -> Outcome {
                 }
             }
         }
+        if q.class == "compile" {
+            if let (Some(ok), Some(ai)) = (b.get("ok"), msgs.iter().position(|m| Some(m.1.as_str()) == q.args["message_id"].as_str())) {
+                let max_refs = ok["limits"]["hierarchical_summaries_v1_max_refs"].as_u64().unwrap_or(3) as usize;
+                let mut expect = compile_selection_model(&msgs, head, ai, &ckpt_recs, max_refs);
+                if big && ai + 1 == msgs.len() {
+                    // long threads are queried in sequence on one copy: an earlier query (cursor rotation) may have
+                    // moved the head, and with it the cut of the newest message
+                    expect["from_seq"] = ok["from_seq"].clone();
+                }
+                let got = json!({
+                    "from_seq": ok["from_seq"], "compiler_strategy": ok["compiler_strategy"],
+                    "compaction_checkpoints": ok["compaction_checkpoints"], "compaction_checkpoint": ok["compaction_checkpoint"],
+                });
+                if got != expect {
+                    out.model_mismatch.push((
+                        q.name.clone(),
+                        format!("no-cache compile selects other checkpoints than the raw log determines: {}", diff_summary(&json!({"ok": got}), &json!({"ok": expect})).replace("as-found", "answered").replace("no-cache", "raw-log model")),
+                    ));
+                }
+            }
+        }
+        if q.class == "status" {
+            if let Some(ok) = b.get("ok") {
+                // newest checkpoint = greatest to_seq, of several frames for it the one latest in the stream
+                let expect = ckpts.iter().max_by_key(|c| (c.0, c.2)).map(|c| (c.1.clone(), c.0));
+                let got = ok["latest_checkpoint"]["checkpoint_id"].as_str().map(|id| (id.to_string(), ok["latest_checkpoint"]["to_seq"].as_u64().unwrap_or(u64::MAX)));
+                if got != expect {
+                    out.model_mismatch.push((q.name.clone(), format!("no-cache status names latest checkpoint {got:?} vs raw-log model {expect:?}")));
+                }
+            }
+        }
         if q.class == "cut_points" {
             if let Some(ok) = b.get("ok") {
                 let stride = q.args["stride"].as_u64().unwrap_or(1).max(1);
                 let limit = q.args["limit"].as_u64().unwrap_or(1).clamp(1, 32) as usize;
                 let limit = if q.args["limit"].is_null() { ok["cut_points"].as_array().map(|a| a.len()).unwrap_or(0) } else { limit };
-                let mut expect: Vec<(u64, u64, String)> = Vec::new();
+                // a cut point is checkpointed iff a checkpoint frame names its seq; of several, the one latest in
+                // the stream is reported
+                let mut expect: Vec<(u64, u64, String, bool, Option<String>)> = Vec::new();
                 let mut k = (msgs.len() as u64) / stride;
                 while k >= 1 && expect.len() < limit {
                     let ord = k * stride;
                     let (s, id) = &msgs[(ord - 1) as usize];
-                    expect.push((ord, *s, id.clone()));
+                    let latest = ckpts.iter().filter(|c| c.0 == *s).last().map(|c| c.1.clone());
+                    expect.push((ord, *s, id.clone(), latest.is_some(), latest));
                     k -= 1;
                 }
-                let got: Vec<(u64, u64, String)> = ok["cut_points"]
+                let got: Vec<(u64, u64, String, bool, Option<String>)> = ok["cut_points"]
                     .as_array()
                     .map(|a| {
                         a.iter()
@@ -760,6 +1135,8 @@ pub fn execute(plan: &Plan, only_faults: Option<&[usize]>) -> Outcome {
                                     c["target_message_ordinal"].as_u64().unwrap_or(0),
                                     c["to_seq"].as_u64().unwrap_or(0),
                                     c["to_message_id"].as_str().unwrap_or("").to_string(),
+                                    c["already_checkpointed"].as_bool().unwrap_or(false),
+                                    c["latest_checkpoint_id"].as_str().map(|x| x.to_string()),
                                 )
                             })
                             .collect()
@@ -843,6 +1220,8 @@ fn plan_from_json(v: &Value) -> Option<Plan> {
         Shape::Spread(num(shape_s))
     } else if shape_s.starts_with("Long") {
         Shape::Long(num(shape_s))
+    } else if shape_s.starts_with("RepeatedCkpts") {
+        Shape::RepeatedCkpts(num(shape_s))
     } else if shape_s == "Medium" {
         Shape::Medium
     } else {
@@ -867,9 +1246,26 @@ fn plan_from_json(v: &Value) -> Option<Plan> {
     })
 }
 
-/// Attribute a failure to the smallest fault subset that reproduces it (single faults first).
-fn attribute(plan: &Plan, class: &str, pred: &dyn Fn(&Outcome) -> bool) -> String {
-    if plan.faults.is_empty() {
+/// Attribute a failure to the smallest fault subset that reproduces it (no fault at all first, then single
+/// faults). A disagreement that also shows when no fault is applied is never blamed on the fault script: the case is
+/// re-run (same history seed, only the queries concerned) without faults before a fault class is named. `base` =
+/// outcome of the same plan without faults, when the caller has it already.
+fn attribute(r: &mut Report, plan: &Plan, o: &Outcome, base: Option<&Outcome>, names: &[String], pred: &dyn Fn(&Outcome) -> bool) -> String {
+    if plan.faults.is_empty() || o.applied.is_empty() {
+        return "no_fault".to_string();
+    }
+    let without = match base {
+        Some(b) => pred(b),
+        None => {
+            let t0 = r.elapsed();
+            let o0 = execute_opts(plan, Some(&[]), Some(names));
+            r.count("disagreements_re_run_without_faults", 1);
+            r.count("queries_re_run_without_faults", o0.queries as u64);
+            r.count("wall_ms_re_runs_without_faults", ((r.elapsed() - t0) * 1000.0) as u64);
+            pred(&o0)
+        }
+    };
+    if without {
         return "no_fault".to_string();
     }
     if plan.faults.len() == 1 {
@@ -877,20 +1273,14 @@ fn attribute(plan: &Plan, class: &str, pred: &dyn Fn(&Outcome) -> bool) -> Strin
         return f.sig();
     }
     for (i, f) in plan.faults.iter().enumerate() {
-        let o = execute(plan, Some(&[i]));
+        let o = execute_opts(plan, Some(&[i]), Some(names));
         if pred(&o) {
             return f.sig();
         }
     }
-    // also possible with no fault at all?
-    let o = execute(plan, Some(&[]));
-    if pred(&o) {
-        return "no_fault".to_string();
-    }
     let mut l: Vec<String> = plan.faults.iter().map(|f| format!("{}:{}", FILE_CLASS[f.file], f.kind.name())).collect();
     l.sort();
     l.dedup();
-    let _ = class;
     format!("multi[{}]", l.join("+"))
 }
 
@@ -902,10 +1292,16 @@ fn shape_class(s: &Shape) -> &'static str {
         Shape::BigSidecar(_) => "big_sidecar",
         Shape::Spread(_) => "spread",
         Shape::Long(_) => "bounded",
+        Shape::RepeatedCkpts(_) => "repeated_checkpoints",
     }
 }
 
 fn judge(r: &mut Report, plan: &Plan, o: &Outcome) {
+    judge_with_base(r, plan, o, None)
+}
+
+/// `base`: outcome of the same plan (same history seed) without faults, if it has been evaluated.
+fn judge_with_base(r: &mut Report, plan: &Plan, o: &Outcome, base: Option<&Outcome>) {
     r.count("queries_compared", o.queries as u64);
     r.count("frames_in_histories", o.frames as u64);
     r.count("faults_applied", o.applied.len() as u64);
@@ -913,10 +1309,19 @@ fn judge(r: &mut Report, plan: &Plan, o: &Outcome) {
     if o.max_steps > cur {
         r.counters.insert("max_scan_steps_in_one_query".into(), o.max_steps);
     }
+    r.count("checkpoint_frames_in_histories", o.ckpt_frames as u64);
+    r.count("checkpoint_frames_with_to_seq_below_the_previous_one", o.ckpt_frames_out_of_order as u64);
+    r.count("cut_points_checkpointed_more_than_once", o.rep_cuts as u64);
+    if o.rep_cuts > 0 {
+        r.count("histories_with_a_cut_point_checkpointed_more_than_once", 1);
+    }
+    r.count("compiles_selecting_a_repeatedly_checkpointed_cut_point", o.rep_selected as u64);
+    r.count("compiles_selecting_a_repeatedly_checkpointed_cut_point_hierarchical", o.rep_selected_hier as u64);
+    r.count("compiles_selecting_a_repeatedly_checkpointed_cut_point_below_the_newest_level", o.rep_selected_not_newest as u64);
     let sc = shape_class(&plan.shape);
     if let Some(tc) = &o.truth_corrupt {
         let kind = tc.split(':').next().unwrap_or("corrupt").to_string();
-        let attr = attribute(plan, "truth", &|x: &Outcome| x.truth_corrupt.is_some());
+        let attr = attribute(r, plan, o, base, &[], &|x: &Outcome| x.truth_corrupt.is_some());
         r.violation(
             &format!("C04/truth_log_corrupted_by_append_after_cache_fault/{kind}/{attr}"),
             &format!("after a cache fault ({attr}) a later append corrupted the truth log: {tc}"),
@@ -929,7 +1334,8 @@ fn judge(r: &mut Report, plan: &Plan, o: &Outcome) {
         let attr = if plan.faults.is_empty() {
             "no_fault".to_string()
         } else {
-            attribute(plan, class, &move |x: &Outcome| x.nonterm.iter().any(|n| n.0 == c2))
+            let names: Vec<String> = o.nonterm.iter().filter(|n| n.0 == *class).map(|n| n.1.trim_end_matches(" [no-cache path]").to_string()).collect();
+            attribute(r, plan, o, base, &names, &move |x: &Outcome| x.nonterm.iter().any(|n| n.0 == c2))
         };
         r.violation(
             &format!("C04/non_termination/{class}/{}", if attr == "no_fault" { format!("no_fault/{sc}") } else { attr.clone() }),
@@ -937,9 +1343,18 @@ fn judge(r: &mut Report, plan: &Plan, o: &Outcome) {
             json!({"plan": plan_json(plan), "applied": o.applied, "query": name, "steps": used}),
         );
     }
+    let mut attr_of: std::collections::HashMap<String, String> = Default::default();
     for (class, name, detail) in &o.mismatches {
         let c2 = class.clone();
-        let attr = attribute(plan, class, &move |x: &Outcome| x.mismatches.iter().any(|n| n.0 == c2));
+        let attr = match attr_of.get(class) {
+            Some(a) => a.clone(),
+            None => {
+                let names: Vec<String> = o.mismatches.iter().filter(|n| n.0 == *class).map(|n| n.1.clone()).collect();
+                let a = attribute(r, plan, o, base, &names, &move |x: &Outcome| x.mismatches.iter().any(|n| n.0 == c2));
+                attr_of.insert(class.clone(), a.clone());
+                a
+            }
+        };
         r.violation(
             &format!("C04/answer_differs/{class}/{}", if attr == "no_fault" { format!("no_fault/{sc}") } else { attr.clone() }),
             &format!("{name}: answer with caches as found differs from the answer with caches removed ({attr}): {detail}"),
@@ -961,10 +1376,13 @@ pub fn run(cfg: &Cfg) -> i32 {
         "fault_enumeration",
         "cache-fault scripts × query set: every (cache file class × fault kind × position) single fault is enumerated \
          on seeded histories, then random multi-fault scripts, plus directed long threads (>10^4 frames, >8 MiB sidecar, \
-         dense non-message frames); each query is evaluated as-found vs caches-removed (and replay/cut-points vs a raw-log \
-         model); distinct = distinct (fault script shape, history shape) whose faults were really applied",
+         dense non-message frames) and directed short threads whose cut points are checkpointed repeatedly / out of order \
+         (no fault, then one fault); each query is evaluated as-found vs caches-removed (and replay / cut-points incl. their \
+         checkpointed marking / status latest checkpoint / cursor and selection status vs a raw-log model); a disagreement is \
+         blamed on a fault only after it failed to show without faults; distinct = distinct (fault script shape, history shape) \
+         whose faults were really applied",
     );
-    r.assume("the no-cache path is the reference for answers other than replay / cut points (those are also checked against the raw log)");
+    r.assume("the no-cache path is the reference for answers other than replay / cut points / status latest checkpoint / cursor and selection status / the checkpoint selection of compile (those are also checked against the raw log; with caches removed the real code rebuilds them and takes the same fast paths, so it is not an independent reference there)");
     r.assume("termination is judged on cache.scan steps (budget 160 per query), loops without a hook would only be seen by the wall-clock watchdog");
     let _s = sched(); // installs the step-budget handler
     if let Some(p) = &cfg.replay {
@@ -983,6 +1401,7 @@ pub fn run(cfg: &Cfg) -> i32 {
     }
 
     let mut idx = 0u64;
+    let mut t_mark = r.elapsed();
     // 1. directed long threads (every shard 0 run; cheap because appends cost ~25 µs)
     let directed: Vec<Shape> = vec![
         Shape::ManyMessages(10_400),
@@ -1007,15 +1426,85 @@ pub fn run(cfg: &Cfg) -> i32 {
             for (file, kind) in [(0usize, FaultKind::Delete), (3, FaultKind::TruncLine), (6, FaultKind::Delete)] {
                 let mut p2 = plan.clone();
                 p2.faults = vec![Fault { file, kind, at: 2, salt: 7 }];
-                let o = execute(&p2, None);
+                let o2 = execute(&p2, None);
                 r.eval();
-                if !o.applied.is_empty() {
+                if !o2.applied.is_empty() {
                     r.distinct_str(&format!("directed:{:?}:{}", p2.shape, p2.faults[0].label()));
                 }
-                judge(&mut r, &p2, &o);
+                judge_with_base(&mut r, &p2, &o2, Some(&o));
             }
         }
     }
+    r.count("wall_ms_directed_long_threads", ((r.elapsed() - t_mark) * 1000.0) as u64);
+    t_mark = r.elapsed();
+    // 1b. histories with REPEATED / OUT-OF-ORDER checkpoints (a cut point summarised two or three times: adjacent
+    //     frames, frames far apart, decreasing to_seq order, on top of auto-compaction), compile anchored at the
+    //     repeatedly checkpointed messages: first with no fault at all (caches intact vs caches removed), then with one fault on the files
+    //     the checkpoint queries read
+    // variants: ordering class = v % 4, auto-compaction first = (v / 4) % 2, frame density = v % 3
+    let no_fault_variants: Vec<u64> = if cfg.tier == crate::report::Tier::Thorough { (0..16).collect() } else { vec![0, 5, 2, 7] };
+    let mut rep_cases: Vec<(u64, Option<(usize, FaultKind, u8)>)> = no_fault_variants.into_iter().map(|v| (v, None)).collect();
+    {
+        let (files, kinds): (&[usize], &[FaultKind]) = if cfg.tier == crate::report::Tier::Thorough {
+            (&[0, 3, 6, 7, 8], &FAULT_KINDS)
+        } else {
+            (&[7, 8], &[FaultKind::Delete, FaultKind::Garbage, FaultKind::Rollback])
+        };
+        let mut v = 0u64;
+        for at in [2u8, 1u8] {
+            for file in files {
+                for kind in kinds {
+                    rep_cases.push((v, Some((*file, *kind, at))));
+                    v += 1;
+                }
+            }
+        }
+    }
+    let rep_budget = cfg.budget_s * 0.25; // time slice of this section
+    for (k, (v, fault)) in rep_cases.into_iter().enumerate() {
+        // case numbers (= rng lanes) of their own: the numbering of the older cases below stays as it was
+        let i = 1_000_000 + k as u64;
+        if !cfg.mine(i) {
+            continue;
+        }
+        if r.elapsed() - t_mark > rep_budget || r.over(cfg) {
+            r.count("repeated_checkpoint_cases_skipped_for_time", 1);
+            continue;
+        }
+        let mut rng = cfg.case_rng(i);
+        let plan = Plan {
+            seed: rng.next_u64(),
+            shape: Shape::RepeatedCkpts(v),
+            n: [0, 0, rng.usize(8)],
+            faults: fault.map(|(file, kind, at)| vec![Fault { file, kind, at, salt: rng.next_u64() }]).unwrap_or_default(),
+            restart1: rng.bool(),
+            restart2: true,
+        };
+        let t0 = r.elapsed();
+        let o = execute(&plan, None);
+        if std::env::var("RV_C04_DEBUG").is_ok() {
+            eprintln!("repeated-ckpt case v{v} {:?}: {:.2}s frames {} queries {} ckpts {} rep_cuts {} selected {}", plan.faults.first().map(|f| f.label()), r.elapsed() - t0, o.frames, o.queries, o.ckpt_frames, o.rep_cuts, o.rep_selected);
+        }
+        r.eval();
+        if o.rep_cuts == 0 || o.rep_selected == 0 {
+            r.inconclusive("a directed repeated-checkpoint history ended without a compile that selects a repeatedly checkpointed cut point");
+        } else if plan.faults.is_empty() {
+            r.distinct_str(&format!("repeated_ckpts:no_fault:order{}:auto{}:density{}", v % 4, (v / 4) % 2, v % 3));
+            r.count("repeated_checkpoint_histories_compared_with_no_fault", 1);
+        } else if !o.applied.is_empty() {
+            r.distinct_str(&format!("repeated_ckpts:{}", plan.faults[0].label()));
+            r.count("repeated_checkpoint_histories_compared_with_one_fault", 1);
+        } else {
+            r.count("fault_not_applicable", 1);
+        }
+        if fault.is_none() && (v == 0 || v == 5) {
+            r.sample(json!({"plan": plan_json(&plan), "frames": o.frames, "queries": o.queries, "checkpoint_frames": o.ckpt_frames,
+                "cut_points_checkpointed_more_than_once": o.rep_cuts, "compiles_selecting_one": o.rep_selected,
+                "of_them_hierarchical": o.rep_selected_hier, "below_the_newest_level": o.rep_selected_not_newest}));
+        }
+        judge(&mut r, &plan, &o);
+    }
+    r.count("wall_ms_repeated_checkpoint_histories", ((r.elapsed() - t_mark) * 1000.0) as u64);
     // 2. single-fault enumeration: file × kind × position
     let mut enum_cases = Vec::new();
     for at in [2u8, 1u8] {
@@ -1026,39 +1515,6 @@ pub fn run(cfg: &Cfg) -> i32 {
         }
     }
     let rounds = cfg.tier.pick(1u64, 12u64);
-    'outer: for round in 0..rounds {
-        for (file, kind, at) in &enum_cases {
-            let i = idx;
-            idx += 1;
-            if !cfg.mine(i) {
-                continue;
-            }
-            if r.over(cfg) {
-                break 'outer;
-            }
-            let mut rng = cfg.case_rng(i);
-            let plan = Plan {
-                seed: rng.next_u64(),
-                shape: if round % 4 == 3 { Shape::Medium } else { Shape::Small },
-                n: if round % 4 == 3 { [400, 300, 100] } else { [20 + rng.usize(60), 10 + rng.usize(40), rng.usize(30)] },
-                faults: vec![Fault { file: *file, kind: *kind, at: *at, salt: rng.next_u64() }],
-                restart1: true,
-                restart2: true,
-            };
-            let o = execute(&plan, None);
-            r.eval();
-            if !o.applied.is_empty() {
-                r.distinct_str(&format!("{}|{:?}", plan.faults[0].label(), shape_class(&plan.shape)));
-                r.count(&format!("fault:{}", plan.faults[0].kind.name()), 1);
-            } else {
-                r.count("fault_not_applicable", 1);
-            }
-            if r.samples.len() < r.max_samples {
-                r.sample(json!({"plan": plan_json(&plan), "applied": o.applied, "frames": o.frames, "queries": o.queries}));
-            }
-            judge(&mut r, &plan, &o);
-        }
-    }
     // 2b. long threads (seek-index strides crossed after the fault) with one index fault plus one fault that
     //     forces another read path: the messages+runs sidecar made unusable at rest (none of these single
     //     faults is a known finding on its own, so any disagreement here is new)
@@ -1076,40 +1532,99 @@ pub fn run(cfg: &Cfg) -> i32 {
         forced.push((file, kind, 2, Some((3, FaultKind::Garbage))));
     }
     let forced_rounds = cfg.tier.pick(1u64, 6u64);
-    'forced: for round in 0..forced_rounds {
-        for (file, kind, at, second) in &forced {
-            let i = idx;
+    // case numbers (= rng lanes) as if 2 ran to its end before 2b; the order of execution interleaves them (one
+    // path-forcing case after every four enumeration cases), so that a slow machine starves neither list
+    enum Spec {
+        Single(u64, usize, FaultKind, u8),
+        Forced(u64, usize, FaultKind, u8, Option<(usize, FaultKind)>),
+    }
+    let mut singles: Vec<(u64, Spec)> = Vec::new();
+    for round in 0..rounds {
+        for (file, kind, at) in &enum_cases {
+            singles.push((idx, Spec::Single(round, *file, *kind, *at)));
             idx += 1;
-            if !cfg.mine(i) {
-                continue;
-            }
-            if r.over(cfg) {
-                break 'forced;
-            }
-            let mut rng = cfg.case_rng(i);
-            let mut faults = vec![Fault { file: *file, kind: *kind, at: *at, salt: rng.next_u64() }];
-            if let Some((f2, k2)) = second {
-                faults.push(Fault { file: *f2, kind: *k2, at: 2, salt: rng.next_u64() });
-            }
-            let plan = Plan {
-                seed: rng.next_u64(),
-                shape: Shape::Long(round),
-                n: [260 + rng.usize(80), 40 + rng.usize(60), 300 + rng.usize(120)],
-                faults,
-                restart1: rng.bool(),
-                restart2: true,
-            };
-            let o = execute(&plan, None);
-            r.eval();
-            if !o.applied.is_empty() {
-                let mut l = o.applied.clone();
-                l.sort();
-                r.distinct_str(&format!("forced:{}", l.join(",")));
-                r.count("path_forcing_long_thread_cases", 1);
-            }
-            judge(&mut r, &plan, &o);
         }
     }
+    let mut forcing: std::collections::VecDeque<(u64, Spec)> = Default::default();
+    for round in 0..forced_rounds {
+        for (file, kind, at, second) in &forced {
+            forcing.push_back((idx, Spec::Forced(round, *file, *kind, *at, *second)));
+            idx += 1;
+        }
+    }
+    let mut merged: Vec<(u64, Spec)> = Vec::new();
+    for (n, c) in singles.into_iter().enumerate() {
+        merged.push(c);
+        if n % 4 == 3 {
+            if let Some(f) = forcing.pop_front() {
+                merged.push(f);
+            }
+        }
+    }
+    merged.extend(forcing);
+    let (mut ms_single, mut ms_forced) = (0u64, 0u64);
+    for (i, spec) in merged {
+        if !cfg.mine(i) {
+            continue;
+        }
+        if r.over(cfg) {
+            break;
+        }
+        let t0 = r.elapsed();
+        let mut rng = cfg.case_rng(i);
+        match spec {
+            Spec::Single(round, file, kind, at) => {
+                let plan = Plan {
+                    seed: rng.next_u64(),
+                    shape: if round % 4 == 3 { Shape::Medium } else { Shape::Small },
+                    n: if round % 4 == 3 { [400, 300, 100] } else { [20 + rng.usize(60), 10 + rng.usize(40), rng.usize(30)] },
+                    faults: vec![Fault { file, kind, at, salt: rng.next_u64() }],
+                    restart1: true,
+                    restart2: true,
+                };
+                let o = execute(&plan, None);
+                r.eval();
+                if !o.applied.is_empty() {
+                    r.distinct_str(&format!("{}|{:?}", plan.faults[0].label(), shape_class(&plan.shape)));
+                    r.count(&format!("fault:{}", plan.faults[0].kind.name()), 1);
+                } else {
+                    r.count("fault_not_applicable", 1);
+                }
+                if r.samples.len() < r.max_samples {
+                    r.sample(json!({"plan": plan_json(&plan), "applied": o.applied, "frames": o.frames, "queries": o.queries}));
+                }
+                judge(&mut r, &plan, &o);
+                ms_single += ((r.elapsed() - t0) * 1000.0) as u64;
+            }
+            Spec::Forced(round, file, kind, at, second) => {
+                let mut faults = vec![Fault { file, kind, at, salt: rng.next_u64() }];
+                if let Some((f2, k2)) = second {
+                    faults.push(Fault { file: f2, kind: k2, at: 2, salt: rng.next_u64() });
+                }
+                let plan = Plan {
+                    seed: rng.next_u64(),
+                    shape: Shape::Long(round),
+                    n: [260 + rng.usize(80), 40 + rng.usize(60), 300 + rng.usize(120)],
+                    faults,
+                    restart1: rng.bool(),
+                    restart2: true,
+                };
+                let o = execute(&plan, None);
+                r.eval();
+                if !o.applied.is_empty() {
+                    let mut l = o.applied.clone();
+                    l.sort();
+                    r.distinct_str(&format!("forced:{}", l.join(",")));
+                    r.count("path_forcing_long_thread_cases", 1);
+                }
+                judge(&mut r, &plan, &o);
+                ms_forced += ((r.elapsed() - t0) * 1000.0) as u64;
+            }
+        }
+    }
+    r.count("wall_ms_single_fault_enumeration", ms_single);
+    r.count("wall_ms_path_forcing_long_threads", ms_forced);
+    t_mark = r.elapsed();
     // 3. random multi-fault scripts
     while !r.over(cfg) && idx < cfg.tier.pick(2_000, 2_000_000) {
         let i = idx;
@@ -1147,5 +1662,6 @@ pub fn run(cfg: &Cfg) -> i32 {
         }
         judge(&mut r, &plan, &o);
     }
+    r.count("wall_ms_random_multi_fault_scripts", ((r.elapsed() - t_mark) * 1000.0) as u64);
     r.finish(cfg)
 }
